@@ -18,6 +18,10 @@ from .. import meshops as mo
 from ..topo import REF
 
 ID = 'C13'
+# sub-checks added after the seeded-change waves (DESIGN.md sections 5 and 6)
+EXTENSIONS = [
+    'marking helper adaptive_theta composed with refined; marked sets named with repeated indices (array and list)',
+]
 LEVEL = 'model_checking'
 TECHNIQUE = "explicit-state BFS over refinement histories; all marked subsets per state; exact transition relation"
 LEVEL_TEXT = ("From every line / triangle / tetrahedron seed (first and second order), every history of length <= D over "
